@@ -1,4 +1,4 @@
 Require Import Model.Base Corr.Common Corr.Draw.
-Definition oracle (v : verdict) : bool := v_results_ok v && v_sleep_match v && v_sleep_delay v && v_no_anomaly v && v_obs v.
+Definition oracle (v : verdict) : bool := v_results_ok v && v_sleep_match v && v_sleep_delay v && v_sleep_spacing v.
 Definition check (x : pcase * pout) : Z := code (corr_exact (fst x) (snd x)) (oracle (verdict_of x)).
 Definition model_out := Corr.Draw.model_out.
